@@ -68,15 +68,25 @@ def _is_alias_chain(e: ast.AST, roots: Set[str]) -> bool:
 
 
 class _Inliner(ast.NodeTransformer):
-    def __init__(self, table: Dict[str, ast.AST], after: Dict[str, int]):
-        self.table = table
-        self.after = after
+    """Replaces loads of an alias by its chain from the alias definition onwards, in statement order (the tree is walked
+    in the order the statements are written; positions are not used because inlined helper code carries the positions
+    of the helper)."""
+
+    def __init__(self, table: Dict[int, Tuple[str, ast.AST]]):
+        self.defs = table              # id(definition statement) -> (name, chain)
+        self.active: Dict[str, ast.AST] = {}
+
+    def visit_Assign(self, node: ast.Assign):
+        self.generic_visit(node)
+        d = self.defs.get(id(node))
+        if d is not None:
+            self.active[d[0]] = d[1]
+        return node
 
     def visit_Name(self, node: ast.Name):
-        if isinstance(node.ctx, ast.Load) and node.id in self.table and \
-                (node.lineno, node.col_offset) > self.after[node.id]:
+        if isinstance(node.ctx, ast.Load) and node.id in self.active:
             import copy as _copy
-            new = _copy.deepcopy(self.table[node.id])
+            new = _copy.deepcopy(self.active[node.id])
             for x in ast.walk(new):
                 if hasattr(x, "lineno"):
                     x.lineno, x.col_offset = node.lineno, node.col_offset
@@ -92,36 +102,38 @@ class _Inliner(ast.NodeTransformer):
 
 
 def inline_local_aliases(fn: ast.FunctionDef, module_roots: Set[str]):
-    """Normalisation applied to every function at load time: a local that is bound exactly once, by a top-level
-    statement `name = <alias chain>` (self.a.b, self.sig_in[0].state, np.float32 ...), is replaced by that chain at its
-    later uses.  Rules then see `x[self.select]` whether or not the code spells it `sel = self.select; x[sel]`.
+    """Normalisation applied to every function at load time: a local that is bound exactly once, by a statement
+    `name = <alias chain>` (self.a.b, self.sig_in[0].state, np.float32 ...) anywhere in the function, is replaced by that
+    chain at its later uses.  Rules then see `x[self.select]` whether or not the code spells it `sel = self.select; x[sel]`.
     (Assumes the aliased attribute is not rebound between the alias definition and its use.)"""
     cnt = _binding_counts(fn)
     a = fn.args
     pos = a.posonlyargs + a.args
     selfn = pos[0].arg if pos else None
     roots = set(module_roots) | ({selfn} if selfn and cnt.get(selfn, 0) == 1 else set())
-    table: Dict[str, ast.AST] = {}
-    after: Dict[str, int] = {}
-    def straight(stmts):
-        # statements executed in sequence with the function body: the body itself, and the bodies of try / with blocks
+    table: Dict[int, Tuple[str, ast.AST]] = {}
+
+    def own_statements(stmts):
         for st_ in stmts:
+            if isinstance(st_, (ast.FunctionDef, ast.ClassDef, ast.AsyncFunctionDef)):
+                continue
             yield st_
-            if isinstance(st_, (ast.Try, ast.With)):
-                yield from straight(st_.body)
-    for st in straight(fn.body):
+            for fld in ("body", "orelse", "finalbody"):
+                v = getattr(st_, fld, None)
+                if isinstance(v, list) and v and isinstance(v[0], ast.stmt):
+                    yield from own_statements(v)
+            if isinstance(st_, ast.Try):
+                for h in st_.handlers:
+                    yield from own_statements(h.body)
+    for st in own_statements(fn.body):
         if isinstance(st, ast.Assign) and len(st.targets) == 1 and isinstance(st.targets[0], ast.Name):
             name = st.targets[0].id
             if cnt.get(name, 0) == 1 and _is_alias_chain(st.value, roots) and not isinstance(st.value, ast.Name):
-                table[name] = st.value
-                after[name] = (st.end_lineno or st.lineno, st.end_col_offset or 0)
+                table[id(st)] = (name, st.value)
     if not table:
         return
-    inl = _Inliner(table, after)
-    new_body = []
-    for st in fn.body:
-        new_body.append(inl.visit(st))
-    fn.body = new_body
+    inl = _Inliner(table)
+    fn.body = [inl.visit(st) for st in fn.body]
     ast.fix_missing_locations(fn)
 
 
@@ -134,8 +146,41 @@ class _Desugar(ast.NodeTransformer):
     """getattr(x, "name") -> x.name ;  a, b = <attribute chain>  ->  a = chain[0]; b = chain[1]  (so that the alias
     inliner sees through tuple-unpacked signal lists)."""
 
+    @staticmethod
+    def _unrolled(comp, ctor):
+        """[E(x) for x in (a, b, c)] with a literal sequence: the elements written out"""
+        import copy as _copy
+        if len(comp.generators) != 1:
+            return None
+        g = comp.generators[0]
+        if g.ifs or g.is_async or not isinstance(g.target, ast.Name) or not isinstance(g.iter, (ast.Tuple, ast.List)) \
+                or len(g.iter.elts) > 8 or any(isinstance(e, ast.Starred) for e in g.iter.elts):
+            return None
+        var = g.target.id
+        elts = []
+        for e in g.iter.elts:
+            class R(ast.NodeTransformer):
+                def visit_Name(self, n):
+                    if n.id == var and isinstance(n.ctx, ast.Load):
+                        return ast.copy_location(_copy.deepcopy(e), n)
+                    return n
+            elts.append(R().visit(_copy.deepcopy(comp.elt)))
+        return ast.copy_location(ctor(elts=elts, ctx=ast.Load()), comp)
+
+    def visit_ListComp(self, node):
+        self.generic_visit(node)
+        return self._unrolled(node, ast.List) or node
+
     def visit_Call(self, node):
         self.generic_visit(node)
+        if isinstance(node.func, ast.Name) and node.func.id in ("tuple", "list") and len(node.args) == 1 and not node.keywords and \
+                isinstance(node.args[0], (ast.GeneratorExp, ast.ListComp)):
+            u = self._unrolled(node.args[0], ast.Tuple if node.func.id == "tuple" else ast.List)
+            if u is not None:
+                return u
+        if isinstance(node.func, ast.Name) and node.func.id == "tuple" and len(node.args) == 1 and isinstance(node.args[0], ast.List) \
+                and not node.keywords:
+            return ast.copy_location(ast.Tuple(elts=node.args[0].elts, ctx=ast.Load()), node)
         if isinstance(node.func, ast.Name) and node.func.id == "getattr" and len(node.args) == 2 and not node.keywords and \
                 isinstance(node.args[1], ast.Constant) and isinstance(node.args[1].value, str) and node.args[1].value.isidentifier():
             return ast.copy_location(ast.Attribute(value=node.args[0], attr=node.args[1].value, ctx=ast.Load()), node)
@@ -148,6 +193,12 @@ class _Desugar(ast.NodeTransformer):
                 isinstance(node.ops[0], (ast.Is, ast.IsNot)) and (node.left.value is None or node.comparators[0].value is None):
             same = node.left.value is node.comparators[0].value
             return ast.copy_location(ast.Constant(value=same if isinstance(node.ops[0], ast.Is) else not same), node)
+        return node
+
+    def visit_UnaryOp(self, node):
+        self.generic_visit(node)
+        if isinstance(node.op, ast.Not) and isinstance(node.operand, ast.Constant) and isinstance(node.operand.value, (bool, type(None))):
+            return ast.copy_location(ast.Constant(value=not node.operand.value), node)
         return node
 
     def visit_IfExp(self, node):
@@ -247,6 +298,8 @@ def _forward_attr_stores(fn: ast.FunctionDef):
                 ok = True
                 for st in between:
                     for x in ast.walk(st):
+                        if isinstance(x, ast.Name) and x.id == base and isinstance(x.ctx, (ast.Store, ast.Del)):
+                            ok = False          # the object the attribute lives on is only bound after t was computed
                         if isinstance(x, (ast.Return, ast.Break, ast.Continue, ast.Raise, ast.Yield, ast.YieldFrom)):
                             ok = False
                         elif isinstance(x, ast.Attribute) and U(x) == attr_txt:
@@ -309,7 +362,9 @@ def _inline_named_conditions(fn: ast.FunctionDef):
         name, v = st.targets[0].id, st.value
         if cnt.get(name, 0) != 1 or name in params:
             continue
-        if not isinstance(v, (ast.Compare, ast.BoolOp)) and not (isinstance(v, ast.UnaryOp) and isinstance(v.op, ast.Not)):
+        is_flag_literal = isinstance(v, ast.Constant) and isinstance(v.value, bool)
+        if not isinstance(v, (ast.Compare, ast.BoolOp)) and not (isinstance(v, ast.UnaryOp) and isinstance(v.op, ast.Not)) \
+                and not is_flag_literal:
             continue
         ok = True
         for x in ast.walk(v):
@@ -374,6 +429,83 @@ def _inline_named_conditions(fn: ast.FunctionDef):
             self.generic_visit(n)
             return n
     fn.body = [R().visit(b) for b in fn.body]
+
+
+def _expand_kwargs(fn: ast.FunctionDef):
+    """`opts = dict(a=x, b=y)` (or a literal with string keys), bound once and never modified, then `f(..., **opts)`:
+    the call is analysed with the keywords written out."""
+    import copy as _copy
+    cnt = _binding_counts(fn)
+    table: Dict[str, List[ast.keyword]] = {}
+    for n in ast.walk(fn):
+        if isinstance(n, ast.Assign) and len(n.targets) == 1 and isinstance(n.targets[0], ast.Name) and cnt.get(n.targets[0].id, 0) == 1:
+            v = n.value
+            if isinstance(v, ast.Call) and isinstance(v.func, ast.Name) and v.func.id == "dict" and not v.args and \
+                    all(k.arg is not None for k in v.keywords):
+                table[n.targets[0].id] = list(v.keywords)
+            elif isinstance(v, ast.Dict) and v.keys and all(isinstance(k, ast.Constant) and isinstance(k.value, str) and k.value.isidentifier()
+                                                            for k in v.keys):
+                table[n.targets[0].id] = [ast.keyword(arg=k.value, value=val) for k, val in zip(v.keys, v.values)]
+    if not table:
+        return
+    # any other use than `**name` (item assignment, update, passing it on) keeps the dictionary opaque
+    uses: Dict[str, int] = {}
+    star: Dict[str, int] = {}
+    for n in ast.walk(fn):
+        if isinstance(n, ast.Name) and n.id in table and isinstance(n.ctx, ast.Load):
+            uses[n.id] = uses.get(n.id, 0) + 1
+        if isinstance(n, ast.Call):
+            for k in n.keywords:
+                if k.arg is None and isinstance(k.value, ast.Name) and k.value.id in table:
+                    star[k.value.id] = star.get(k.value.id, 0) + 1
+    for n in ast.walk(fn):
+        if isinstance(n, ast.Call):
+            new = []
+            for k in n.keywords:
+                if k.arg is None and isinstance(k.value, ast.Name) and k.value.id in table and uses.get(k.value.id) == star.get(k.value.id):
+                    new += [ast.keyword(arg=kk.arg, value=_copy.deepcopy(kk.value)) for kk in table[k.value.id]]
+                else:
+                    new.append(k)
+            n.keywords = new
+
+
+def _resugar_augassign(fn: ast.FunctionDef):
+    """`t = X; ...; t += e; X = t`  ->  `t = X; ...; X += e` for an attribute / subscript chain X (what Python itself does for
+    an augmented assignment to X, spelled out): the read-modify-write is analysed as the accumulation it is."""
+    U = ast.unparse
+
+    def chain(e):
+        return isinstance(e, (ast.Attribute, ast.Subscript)) and not any(isinstance(x, (ast.Call, ast.Lambda)) for x in ast.walk(e))
+
+    def do_block(block):
+        i = 0
+        while i + 1 < len(block):
+            a, b = block[i], block[i + 1]
+            if isinstance(a, ast.AugAssign) and isinstance(a.target, ast.Name) and isinstance(b, ast.Assign) and \
+                    len(b.targets) == 1 and chain(b.targets[0]) and isinstance(b.value, ast.Name) and b.value.id == a.target.id:
+                t, xtxt = a.target.id, U(b.targets[0])
+                binds = [n for n in ast.walk(fn) if isinstance(n, ast.Name) and n.id == t and isinstance(n.ctx, ast.Store)]
+                defs = [n for n in ast.walk(fn) if isinstance(n, ast.Assign) and len(n.targets) == 1 and isinstance(n.targets[0], ast.Name)
+                        and n.targets[0].id == t and U(n.value) == xtxt]
+                later = sum(1 for st in block[i + 2:] for n in ast.walk(st) if isinstance(n, ast.Name) and n.id == t)
+                if len(binds) == 2 and len(defs) == 1 and later == 0:
+                    import copy as _copy
+                    tgt = _copy.deepcopy(b.targets[0])
+                    new = ast.copy_location(ast.AugAssign(target=tgt, op=a.op, value=a.value), a)
+                    block[i:i + 2] = [new]
+                    continue
+            i += 1
+        for st in block:
+            if isinstance(st, (ast.FunctionDef, ast.ClassDef)):
+                continue
+            for fld in ("body", "orelse", "finalbody"):
+                v = getattr(st, fld, None)
+                if isinstance(v, list) and v and isinstance(v[0], ast.stmt):
+                    do_block(v)
+            if isinstance(st, ast.Try):
+                for h in st.handlers:
+                    do_block(h.body)
+    do_block(fn.body)
 
 
 def _coalesce_copies(fn: ast.FunctionDef):
@@ -469,10 +601,13 @@ def _normalise_tree(tree: ast.Module, inline: bool = True):
         for n in ast.walk(tree):
             if isinstance(n, ast.FunctionDef):
                 _inline_named_conditions(n)
+        _Desugar().visit(tree)          # fold the tests that became literals
         if not os.environ.get("PMLINT_NO_LOWER"):
             _LowerIfExp().visit(tree)
         for n in ast.walk(tree):
             if isinstance(n, ast.FunctionDef):
+                _expand_kwargs(n)
+                _resugar_augassign(n)
                 _coalesce_copies(n)
         for n in ast.walk(tree):
             if isinstance(n, ast.FunctionDef):
